@@ -369,7 +369,7 @@ func genScripts(rng *rand.Rand, shape string, bulk int) [][]scriptOp {
 				scripts[i] = append(scripts[i], op)
 				continue
 			}
-			switch k := rng.Intn(28); {
+			switch k := rng.Intn(26); {
 			case k < 4:
 				op.Kind = "snapshot"
 			case k < 6:
@@ -378,9 +378,9 @@ func genScripts(rng *rand.Rand, shape string, bulk int) [][]scriptOp {
 				op.Kind = "apply"
 			case k < 20:
 				op.Kind = "applyif"
-			case k < 22:
+			case k < 21:
 				op.Kind = "api-get"
-			case k < 23:
+			case k < 22:
 				op.Kind = "api-validate"
 			default:
 				op.Kind = "api-apply"
@@ -419,7 +419,6 @@ var clock atomic.Int64
 // ~90 ms under -race: key generation); the state a history starts from is whatever the previous
 // one left, revealed by the sequential prefix (snapshot + route read).
 func runHistory(r *lib.Run, rng *rand.Rand, hid string, g *gate.Gate, svc *apiClient, shape string, bulk int) (sig string, nOps int, bad bool) {
-	defer prof("history-"+shape, time.Now())
 	scripts := genScripts(rng, shape, bulk)
 	seedBase := rng.Int63()
 	init := initialConfig()
@@ -491,7 +490,6 @@ func runHistory(r *lib.Run, rng *rand.Rand, hid string, g *gate.Gate, svc *apiCl
 				isPatch bool
 			}
 			prepared := map[int]prep{}
-			tPrep := time.Now()
 			for oi, op := range scripts[ci] {
 				switch {
 				case op.Class == "identical" || op.Class == "":
@@ -503,7 +501,6 @@ func runHistory(r *lib.Run, rng *rand.Rand, hid string, g *gate.Gate, svc *apiCl
 					prepared[oi] = prep{cd: mkCand(crng, op.Class, op.UID)}
 				}
 			}
-			prof("prepare", tPrep)
 			ready.Done()
 			<-start
 			for oi, op := range scripts[ci] {
@@ -518,9 +515,7 @@ func runHistory(r *lib.Run, rng *rand.Rand, hid string, g *gate.Gate, svc *apiCl
 					see(v)
 				case "api-get":
 					c0 := clock.Add(1)
-					tG := time.Now()
 					snap, ver, code := svc.get()
-					prof("api-get", tG)
 					c1 := clock.Add(1)
 					out := opOut{Version: ver, Code: code}
 					if snap != nil {
@@ -571,9 +566,7 @@ func runHistory(r *lib.Run, rng *rand.Rand, hid string, g *gate.Gate, svc *apiCl
 					}
 					in.ExpLabel = op.Exp
 					c0 := clock.Add(1)
-					tA := time.Now()
 					code, ver := svc.apply(payload, isPatch, in.ExpRaw)
-					prof(fmt.Sprintf("api-apply-%s-bulk%v", op.Form, op.Bulk > 0), tA)
 					c1 := clock.Add(1)
 					see(ver)
 					var cp *cand
@@ -793,9 +786,7 @@ func runHistory(r *lib.Run, rng *rand.Rand, hid string, g *gate.Gate, svc *apiCl
 	}
 	m := model
 	m.Init = func() any { return state{initKey, initR} }
-	tP := time.Now()
 	res, _ := porcupine.CheckOperationsVerbose(m, ops, 20*time.Second)
-	prof("porcupine", tP)
 	r.Count("histories_checked_by_porcupine", 1)
 	switch res {
 	case porcupine.Illegal:
@@ -926,8 +917,9 @@ func describe(recs []rec) []string {
 func TestC35(t *testing.T) {
 	r := lib.Start(t, "C35")
 	defer r.Finish()
-	r.Rule("each case is one short concurrent history (<= 40 ops) on a fresh real gate.New (Lite enabled, not started): 2-8 barrier-released clients with PRNG yields issue ConfigSnapshot / Java().Config() / ApplyLiveConfig / ApplyLiveConfigIfVersion with candidates {valid route change carrying an id unique in the history, invalid route set, valid non-route change, invalid+non-route, nil, identical to the client's last snapshot} and expected versions {last seen, older, initial, garbage, empty}; distinct = distinct (scripts, order of applied candidates, result codes, number of overlapping call pairs)")
+	r.Rule("each case is one short concurrent history (<= 40 ops) on a real gate.New (Lite enabled, not started; reused for 25 histories): barrier-released clients with PRNG yields issue ConfigSnapshot / Java().Config() / ApplyLiveConfig / ApplyLiveConfigIfVersion and, through the in-process connect service of the config API, GetConfig / ValidateConfig / ApplyConfig with candidates {valid route change carrying an id unique in the history, invalid route set, valid non-route change, invalid+non-route, nil resp. undecodable payload, identical to the client's last snapshot}, API payload forms {full YAML document, full JSON document, JSON merge patch naming the route list, empty merge patch, garbage} and expected versions / if_match {last seen, older, initial, garbage, empty}. Shapes (deterministic walk): mixed (2-8 clients) and api-race (every 3rd history: client 0 opens with an API apply carrying a fresh if_match, 1-3 others open with a direct apply after PRNG-chosen busy work; every 2nd of those with a bulk route table of 40/100/200 routes in the API candidates). distinct = distinct (shape, scripts, order of applied candidates, result codes, number of overlapping call pairs)")
 	r.Assume("porcupine v1.3.0 decides linearizability of each recorded history; call/return stamps come from one atomic counter at the client boundary")
+	r.Assume("API operations are reduced to (connect code | ok, version string); GetConfig payloads are decoded by the harness with gopkg.in/yaml.v3 into Gate's configuration type; histories start from the YAML-normal form of the default configuration (its MOTD is the only member that changes when written as YAML and read back)")
 	r.Assume("content = encoding/json document of the configuration value as marshalled by the harness; versions are opaque and only related to contents by what the API returned")
 
 	n := r.N(400, 6000)
@@ -953,7 +945,7 @@ func TestC35(t *testing.T) {
 					shape = shapeAPIRace
 				}
 				if (shape == shapeAPIRace && h%2 == 0) || h%30 == 0 {
-					bulk = []int{80, 160, 280}[(h/3)%3]
+					bulk = []int{40, 100, 200}[(h/3)%3]
 				}
 				if g == nil || onThisGate >= 25 {
 					var err error
@@ -994,7 +986,6 @@ func TestC35(t *testing.T) {
 		}(w)
 	}
 	wg.Wait()
-	profDump()
 	r.Set("api_yaml_documents_assembled_from_initial_document_and_routes_selftest_ok", yamlSplice().ok)
 	r.Set("operations_recorded", totalOps.Load())
 	r.Set("distinct_interleaving_signatures", len(sigs))
